@@ -5,7 +5,6 @@ CLAIMED=[c["property_id"] for c in json.load(open('/verif/MANIFEST.json'))["chec
 KNOWN_ALARM={
  ('z1','2'): "C10 Q1: GleamLexer::next's two `TextSize::try_from(..).unwrap()` moved into offset_to_size, which span_to_range calls twice and next() calls through it: two reviewed sites became one site two helper levels down; the inventory follows several orphaned sites into one helper only when the helper is called from the reviewed function itself (a limit of the code-motion matching, stated rather than hidden; L2, L4m and A3 follow the helpers since this campaign)",
  ('z1','3'): "C01 L7 / C04 G11 / C07 N1: the local macro n_tokens! of build_tree (`take_while(pred).count()`) rewritten as a run-length function with an explicit `for` loop over `tokens.iter().skip(from)` and a predicate passed as a function pointer: the structural proof of the tree builder reads a run length as take_while + count (in the macro expansion or in a run-length function), not as a hand-written counting loop (the same limit as Y3-3)",
- ('z2','2'): "C15 M1: read_source's `text.drain(..3)` moved into without_byte_order_mark, guarded there by `strip_prefix(BYTE_ORDER_MARK)` answering Some where the reviewed site stood behind `starts_with`: a different construct under a differently spelled guard than the reviewed one (verifier-style inventory; U8/D16 follow the helper and the named constants since this campaign)",
  ('Y3','1'): "C02 P6 / C10 Q1: lex_string walks char_indices() and adds `offset + c.len_utf8()`, the slicing site sits under a `match` arm guard instead of an `if`: the overflow-checked addition and the slice are different constructs under differently spelled guards than the reviewed ones (verifier-style inventory; same class as W6-1 and X7-3)",
  ('Y3','3'): "C01 L7: the local macro n_tokens! of build_tree rewritten as a local closure `count_tokens(from, pred: fn(SyntaxKind) -> bool)`: the proof reads the trivia predicate of every eat_token count at the macro expansion or at the call of a run-length *function*; it does not follow a call through a closure value, so it cannot see which predicate a count was taken with and reports the five counts (a limit of the analysis, stated here rather than hidden)",
  ('X3','2'): "C15 M1: the `take_while(..).sum()` / `map(..).sum()` of line_col_for_pos / end_col_for_line rewritten as explicit `+=` loops: new overflow-checked additions that the panic inventory can neither discharge mechanically nor match to a reviewed site (the same limit as in campaigns 3, 4 and 6)",
